@@ -33,6 +33,8 @@ FEATURES = [
     'half_rate',           # water level sampled every second step
     'misaligned',          # water level on another step (2/3 of the rain step), interpolated by load
     'long',
+    'epoch_zero',          # the record starts at 1970-01-01 00:00:00 UTC (epoch 0)
+    'many_stretches',      # 10-14 gaps: data-interval labels reach two digits
     'displace_exhaust',    # a displaced storm with no candidate left
     'rise_many_storms',    # one rise overlapping 3-5 storms
     'storm_many_rises',    # one storm overlapping 3-5 rises
@@ -196,7 +198,7 @@ def gen(rng, force=None, dyadic=None, max_segments=10):
                    'tie_jump', 'mystery', 'drizzle', 'displace_exhaust',
                    'rise_many_storms', 'storm_many_rises', 'lead_storm_rise_many'):
         middle = force
-    elif force == 'long':
+    elif force in ('long', 'many_stretches'):
         nseg = rng.randint(40, 80)
     if force == 'no_rain':
         for _ in range(rng.randint(1, 4)):
@@ -229,6 +231,8 @@ def gen(rng, force=None, dyadic=None, max_segments=10):
     ngaps = rng.choice([0, 0, 0, 1, 2, 3])
     if force == 'three_stretches':
         ngaps = rng.randint(2, 4)
+    if force == 'many_stretches':
+        ngaps = rng.randint(10, 14)
     if force in ('gap_in_storm', 'stretch_ends_in_storm', 'one_sample_stretch'):
         ngaps = max(ngaps, 1)
     if force in ('half_rate',):
@@ -246,7 +250,7 @@ def gen(rng, force=None, dyadic=None, max_segments=10):
                     i = rng.randint(1, len(keep) - 2)
             else:
                 i = rng.randint(1, len(keep) - 2)
-            k = rng.randint(1, 3)
+            k = 1 if force == 'many_stretches' else rng.randint(1, 3)
             del keep[i:i + k]
     if force == 'one_sample_stretch' and len(keep) > 6:
         # isolate one sample: remove its neighbours
@@ -284,7 +288,7 @@ def gen(rng, force=None, dyadic=None, max_segments=10):
     case = {
         'kind': 'series',
         'step': step,
-        't0': '2021-03-01 00:00:00',
+        't0': '1970-01-01 00:00:00' if force == 'epoch_zero' else '2021-03-01 00:00:00',
         'tz': 'UTC',
         'rain': rain,
         'et': 0.125,
